@@ -71,6 +71,7 @@ class State:
         s.mark = self.mark
         s.old = self.old
         s.decisions = dict(self.decisions)
+        s.loop_marks = list(getattr(self, 'loop_marks', []))
         s.env = {k: _clone(v, memo) for k, v in self.env.items()}
         return s
 
@@ -567,6 +568,7 @@ class Executor:
         m = fresh('lmark')
         s.assume(m >= pre.mark)
         s.mark = m
+        s.loop_marks = list(getattr(s, 'loop_marks', [])) + [m]
 
     def havoc_list(self, lst, state, grows):
         kind = lst.kind
@@ -601,6 +603,8 @@ class Executor:
             for s in a.shape:
                 state.assume(s >= 0)
             return a
+        if isinstance(v, SList) and v.kind == 'any' and v.items == [] and nm in getattr(self, '_rebound', ()):
+            return ('unknown-after-loop-rebinding', nm)      # e.g. `t_2 = []` before the loop, `t_2 = <TT>` inside: any read before the assignment is rejected
         if isinstance(v, SList):
             n = SList(v.ref, v.length, v.fn, None if v.items is None else list(v.items), v.kind)
             self.havoc_list(n, state, grows=True)
@@ -746,7 +750,10 @@ class Executor:
 
     def ex_Name(self, node, state):
         if node.id in state.env:
-            return state.env[node.id]
+            v = state.env[node.id]
+            if isinstance(v, tuple) and len(v) == 2 and v[0] == 'unknown-after-loop-rebinding':
+                raise Unsupported('variable %s (an empty list before the loop, rebound inside it) is read before it is assigned in the iteration (line %d)' % (node.id, node.lineno))
+            return v
         if node.id in self.globals:
             return self.globals[node.id]
         if node.id in ('ValueError', 'TypeError', 'IndexError', 'Exception'):
